@@ -146,7 +146,7 @@ func (s *session) exec(args []string) string {
 				}
 			}
 		}
-		return fmt.Sprint(r.FindPrevious(atoi(args[2])))
+		return fmt.Sprint(r.FindPrevious(atoi(args[2])), " ", r.Find(atoi(args[2])))
 	case "cfg":
 		for _, a := range args[1:] {
 			kv := strings.SplitN(a, "=", 2)
